@@ -252,6 +252,7 @@ type c10Case struct {
 	proxy       *c10Proxy
 	flight      *c10FlightB
 	isRandom    bool
+	pnOffset    int64 // > 0: the flight of a connection re-created after Version Negotiation
 }
 
 // c10FirstPNLen: the encoding length of the flight's first packet number.
@@ -329,6 +330,10 @@ func c10GenCase(r *u.Rng) *c10Case {
 	}
 	if r.Bool() {
 		c.single = r.Range(0, 4)
+	}
+	if r.Chance(1, 5) {
+		c.pnOffset = int64(r.Range(1, 5))
+		c.ipn %= 64 // every packet number of both connections fits one byte
 	}
 	// Only specs that UTransport.dial accepts reach the packer (InitialPacketSpec.validate):
 	// the first packet number is a packet number and fits the bytes it is encoded in.
@@ -482,7 +487,7 @@ func (c *c10Case) spec() *quic.QUICSpec {
 }
 
 func (c *c10Case) String() string {
-	return fmt.Sprintf("dcid=%d scid=%d ipn=%d pnlens=%v pnlen=%d expl=%v/%x ctl=%d prefix=%x conf=%x builder=%s plans=%+v udpmin=%d maxsize=%d hello=%d%s",
+	return fmt.Sprintf("pnoffset=%d ", c.pnOffset) + fmt.Sprintf("dcid=%d scid=%d ipn=%d pnlens=%v pnlen=%d expl=%v/%x ctl=%d prefix=%x conf=%x builder=%s plans=%+v udpmin=%d maxsize=%d hello=%d%s",
 		len(c.dcid), len(c.scid), c.ipn, c.lens, c.single, c.explSet, c.expl, c.ctl, c.prefix, c.conf, c.bk, c.plans, c.udpMin, c.maxSize, len(c.hello), c.desc)
 }
 
@@ -507,7 +512,7 @@ func c10RunCase(w *bufio.Writer, rep *c10Reporter, c *c10Case, dist map[string]i
 		confStore = &c10FixedTokenStore{c.conf}
 	}
 	info, dgs := quic.VerifUPackerFlight(quic.VerifUPackerCfg{Spec: sp, DestConnID: c.dcid, SrcConnID: c.scid, Hello: c.hello,
-		MaxSize: c.maxSize, ConfStore: confStore, Version: 1, MaxCalls: 10})
+		MaxSize: c.maxSize, ConfStore: confStore, Version: 1, MaxCalls: 10, FirstPNOffset: c.pnOffset})
 	if info.SetupPanic != "" {
 		rep.fail("upacker/panic", "setting up / packing the flight panicked: "+info.SetupPanic, c.String())
 		return
@@ -527,7 +532,7 @@ func c10RunCase(w *bufio.Writer, rep *c10Reporter, c *c10Case, dist map[string]i
 		expSpec = &cp
 	}
 	e := &c10Expect{Name: "upacker", Spec: expSpec, MaxPacket: c.maxSize, ConfToken: c.conf, ExplTokSet: c.explSet, ExplToken: c.expl,
-		HelloLen: len(c.hello), Hello: c.hello, CheckBuilder: c.check, HasCheckBuilder: true}
+		HelloLen: len(c.hello), Hello: c.hello, CheckBuilder: c.check, HasCheckBuilder: true, PNOffset: c.pnOffset}
 	var recs []c10BuildRec
 	if c.custom != nil {
 		recs = c.custom.recs
@@ -675,7 +680,7 @@ func c10RunCase(w *bufio.Writer, rep *c10Reporter, c *c10Case, dist map[string]i
 		nt = 1
 	}
 	fmt.Fprintf(w, "CASE %d %s\n", nt, u.App("FlightCase",
-		u.Z(int64(len(c.dcid))), u.Z(int64(len(c.scid))), u.ZU(c.ipn), u.ZList(lens), u.Z(int64(c.single)),
+		u.Z(int64(len(c.dcid))), u.Z(int64(len(c.scid))), u.ZU(c.ipn), u.Z(info.InitialPN+c.pnOffset), u.ZList(lens), u.Z(int64(c.single)),
 		expl, u.Z(int64(c.ctl)), u.Hex(c.prefix), u.Hex(tail), c10OptHex(c.conf != nil, c.conf),
 		c.bk, u.List(plans), u.Z(int64(c.udpMin)), u.Z(int64(c.maxSize)), u.Z(int64(len(c.hello))), u.ZList(plens),
 		u.Z(info.InitialPN), c10OptHex(info.TokenSet, info.Token), u.ZList(budgets), u.List(obs)))
@@ -930,6 +935,43 @@ func runUPacker(w *bufio.Writer, seed uint64, n int, args []string) {
 	}
 }
 
+// c10VNCase: one Dial re-created after Version Negotiation; the (packet number, length) of
+// every client Initial of both connections goes to the model.
+func c10VNCase(w *bufio.Writer, rep *c10Reporter, r *u.Rng, dist map[string]int) {
+	name := []string{"Chrome_146_IPv4", "Chrome_146_IPv6", "Chrome_115_IPv4", "Firefox_116A"}[r.Intn(4)]
+	sp, err := specFor(name)
+	if err != nil {
+		return
+	}
+	ips := &sp.InitialPacketSpec
+	if r.Bool() {
+		ips.InitPacketNumber = uint64(r.Range(0, 9))
+		ips.InitPacketNumberLength = quic.PacketNumberLen(r.Range(0, 4))
+		ips.InitPacketNumberLengths = nil
+		for i, k := 0, r.Range(0, 4); i < k; i++ {
+			ips.InitPacketNumberLengths = append(ips.InitPacketNumberLengths, quic.PacketNumberLen(r.Range(1, 4)))
+		}
+	}
+	pkts, fl, err := c10DialVN(sp)
+	if err != nil {
+		rep.fail("upacker/dial/vn-capture", err.Error(), c10SpecString(sp)+" dialErr="+fl.DialErr)
+		return
+	}
+	for _, f := range c10CheckVN(sp, pkts) {
+		rep.fail("upacker/dial/"+f.key, f.desc, name+" "+c10SpecString(sp))
+	}
+	var lens []int64
+	for _, l := range ips.InitPacketNumberLengths {
+		lens = append(lens, int64(l))
+	}
+	var obs []string
+	for _, p := range pkts {
+		obs = append(obs, u.Pair(u.Z(p.PN), u.Z(int64(p.PNLen))))
+	}
+	fmt.Fprintf(w, "CASE 1 %s\n", u.App("VNCase", u.ZU(ips.InitPacketNumber), u.ZList(lens), u.Z(int64(ips.InitPacketNumberLength)), u.List(obs)))
+	dist["VNCase"]++
+}
+
 func runUPackerDials(w *bufio.Writer, seed uint64, n int, _ []string) {
 	r := u.NewRng(seed)
 	rep := &c10Reporter{w: w, seen: map[string]int{}}
@@ -938,7 +980,11 @@ func runUPackerDials(w *bufio.Writer, seed uint64, n int, _ []string) {
 		c10DialCase(w, rep, r.Fork(), dist)
 		w.Flush()
 	}
-	for _, k := range []string{"DialCase", "ValidateCase", "ValidateCase-rejected"} {
+	for i := 0; i < n/6+4; i++ {
+		c10VNCase(w, rep, r.Fork(), dist)
+		w.Flush()
+	}
+	for _, k := range []string{"DialCase", "ValidateCase", "ValidateCase-rejected", "VNCase"} {
 		fmt.Fprintf(w, "DIST\t%s\t%d\n", k, dist[k])
 	}
 }
